@@ -24,11 +24,15 @@ EXTRA_IMPORTS = ['Props.C08Backends']
 # method of MemoryStorage, its dictionary made an explicit world value, leaves the dictionary and returns / raises what the concrete
 # model memStep says (lean/Gen/EquivMemory.lean); memStep refines the abstract store (memory_refines); the generator
 # Storage.retrieve_all that every storage inherits (while True, yield) is the model's retrLoop over whatever get_all the storage has
-EXTRA_BUILD = ['+Gen.EquivMemory']
-GEN_IMPORTS = ['Gen.EquivMemory']
+EXTRA_BUILD = ['+Gen.EquivMemory', '+Gen.EquivRedis', '+Gen.EquivMongo']
+GEN_IMPORTS = ['Gen.EquivMemory', 'Gen.EquivRedis', 'Gen.EquivMongo']
 GEN_THEOREMS = ['Vakt.GenEquiv.gen_memory_add', 'Vakt.GenEquiv.gen_memory_update', 'Vakt.GenEquiv.gen_memory_delete',
                 'Vakt.GenEquiv.gen_memory_get', 'Vakt.GenEquiv.gen_memory_get_all', 'Vakt.GenEquiv.gen_memory_find',
-                'Vakt.GenEquiv.gen_check_limit', 'Vakt.GenEquiv.gen_retrieve_all']
+                'Vakt.GenEquiv.gen_check_limit', 'Vakt.GenEquiv.gen_retrieve_all',
+                # add / get / update / delete of the Redis and MongoDB storages: the client calls as effects = redisStep / mongoStep
+                'Vakt.GenEquiv.gen_redis_add', 'Vakt.GenEquiv.gen_redis_get', 'Vakt.GenEquiv.gen_redis_update',
+                'Vakt.GenEquiv.gen_redis_delete', 'Vakt.GenEquiv.gen_mongo_add', 'Vakt.GenEquiv.gen_mongo_get',
+                'Vakt.GenEquiv.gen_mongo_update', 'Vakt.GenEquiv.gen_mongo_delete']
 FLOOR = {'quick': 150, 'thorough': 2000}
 ASSUMPTIONS = ['Redis and MongoDB are in-process fakes of the client calls vakt makes (no servers in this sandbox); SQL is '
                'the real SQLAlchemy on SQLite with foreign_keys=ON',
